@@ -905,6 +905,13 @@ def general_histories(rng, tier, n_hist=None, steps=None):
                 if off[0] == "n":
                     h.do(("swap", q_, u_, [(off[1], amt // 2)], off, amt, None, None, None), quote)
                     h.do(("swap", q_, u_, [(off[1], amt - 1)], off, amt, None, None, None), quote)
+                    # the offered coin, exactly, PLUS a sizeable coin of the pair's other native asset (it reaches the pool before the
+                    # swap is priced and stays there; C01-agent11 / C02-agent12: refunded or subtracted)
+                    oth = [a for a in h.pair_assets(q_) if a != off][0]
+                    if oth[0] == "n":
+                        big = max(1, h.reserves(q_)[h.pair_assets(q_).index(oth)] // 3)
+                        if h.bank(u_, oth[1]) >= big and h.bank(u_, off[1]) >= amt:
+                            h.do(("swap", q_, u_, sorted([(off[1], amt), (oth[1], big)]), off, amt, None, None, USER0 + 3))
                     # exactly the declared amount, but in ANOTHER denom (alone): the pair's other native asset or a coin it
                     # does not trade (C01-agent13 was caught only when the random malformed-funds variant drew this)
                     for wd in range(h.nd):
